@@ -84,6 +84,8 @@ const HELPERS: &[(&str, &str)] = &[
         "collect",
         "(define (collect k) (if (= k 0) '() (cons (make-counter (* k 10)) (collect (- k 1)))))",
     ),
+    // closures made inside the procedure handed to a library procedure: one fresh binding per element
+    ("map-collect", "(define (map-collect l) (map (lambda (k) (lambda () (set! k (+ k 100)) k)) l))"),
     ("make-nest", "(define (make-nest n) (lambda () (lambda () (set! n (+ n 1)) n)))"),
     (
         "loop-collect",
@@ -830,10 +832,21 @@ impl Gen {
                 if self.names_with(Role::CounterList).len() >= 2 {
                     return false;
                 }
-                self.need("collect");
                 let name = self.fresh("cl");
                 let k = self.rng.range(2, 4);
                 self.roles.insert(name.clone(), Role::CounterList);
+                if self.rng.chance(1, 3) {
+                    self.need("map-collect");
+                    let items: Vec<Sx> = (1..=k).map(|i| int(i * 7)).collect();
+                    self.emit(
+                        list(vec![sym("define"), sym(&name), call("map-collect", vec![quote(list(items))])]),
+                        "mk-counter-list-through-map",
+                        vec![name],
+                        true,
+                    );
+                    return true;
+                }
+                self.need("collect");
                 self.emit(
                     list(vec![sym("define"), sym(&name), call("collect", vec![int(k)])]),
                     "mk-counter-list",
@@ -2023,6 +2036,39 @@ impl Gen {
                 self.emit(def, "def-tx-macro", vec![], false);
                 Some((list(vec![sym(&name), e]), "macro-use".into(), true))
             }
+            17 => {
+                // the fault while the OPERATOR of a call is being worked out
+                Some((
+                    list(vec![list(vec![sym("begin"), e, sym("car")]), quote(list(vec![int(1), int(2)]))]),
+                    "operator-expression".into(),
+                    true,
+                ))
+            }
+            18 => {
+                // the fault as one element of a vector under construction, or as its fill
+                if self.rng.chance(1, 2) {
+                    Some((call("vector-ref", vec![call("vector", vec![int(1), e, int(3)]), int(0)]), "vector-element".into(), true))
+                } else {
+                    Some((call("vector-length", vec![call("make-vector", vec![int(2), e])]), "make-vector-fill".into(), true))
+                }
+            }
+            19 => {
+                // the fault as the initialiser of an internal definition: the later ones never run
+                if !int_valued {
+                    return None;
+                }
+                let name = self.fresh("tx");
+                self.next_note += 1;
+                let note = self.next_note;
+                let body = vec![
+                    list(vec![sym("define"), sym("first"), int(1)]),
+                    list(vec![sym("define"), sym("inner"), e]),
+                    list(vec![sym("define"), sym("later"), call("sim-note", vec![int(note)])]),
+                    call("+", vec![sym("first"), sym("inner")]),
+                ];
+                define_proc(self, &name, vec![], body);
+                Some((list(vec![sym(&name)]), "internal-definition-initialiser".into(), true))
+            }
             8 => {
                 // many frames between the fault and the top level, none of them a tail call
                 if !int_valued {
@@ -2072,7 +2118,7 @@ impl Gen {
         let depth = self.rng.pick_weighted(&[2, 5, 3]);
         let mut top = depth == 0;
         for _ in 0..depth {
-            let ctx = self.rng.upto(17);
+            let ctx = self.rng.upto(20);
             if let Some((ne, label, iv)) = self.wrap(e.clone(), ctx, int_valued) {
                 e = ne;
                 int_valued = iv;
@@ -2091,14 +2137,19 @@ impl Gen {
             labels.push(format!("storm-x{}", repeat));
         }
         let in_definition = int_valued && self.rng.chance(1, 4);
+        // ... sometimes of a name that is ALREADY bound: the old value must survive
+        let redefine: Option<String> = if in_definition && self.rng.chance(1, 3) { self.pick_name(Role::Int) } else { None };
         if in_definition {
-            labels.push("definition-initialiser".into());
+            labels.push(if redefine.is_some() { "redefinition-initialiser".into() } else { "definition-initialiser".into() });
         }
         let kind_label = format!("fault:{}", labels.join(">"));
         for _ in 0..repeat {
             if in_definition {
                 // the name must not come into being when its initialiser faults
-                let name = self.fresh("df");
+                let name = match &redefine {
+                    Some(g) => g.clone(),
+                    None => self.fresh("df"),
+                };
                 self.emit(list(vec![sym("define"), sym(&name), e.clone()]), &kind_label, vec![], true);
                 self.emit(sym(&name), "probe-defined-name", vec![], false);
             } else {
